@@ -1,6 +1,6 @@
 (* C07 — Bulkhead never loses capacity and rejects only by timeout.
    Same model as C01. Only statements, `exact`, and Print Assumptions. *)
-From TR Require Import Lib.Base Model.Bulkhead Proof.Bulkhead.
+From TR Require Import Lib.Base Lib.TokioTime Model.Bulkhead Proof.Bulkhead.
 
 (* permits are conserved along every history (successes, errors, panics, timeouts,
    cancellations before the first poll, while queued, while granted, while running) *)
@@ -43,11 +43,15 @@ Theorem C07_reject_only_by_timeout :
 Proof. exact reject_only_by_timeout. Qed.
 Print Assumptions C07_reject_only_by_timeout.
 
-(* a waiter's deadline is its arrival (first poll) plus max_wait ... *)
+(* a waiter's deadline is its arrival (first poll) plus max_wait, rounded up to the timer
+   wheel's millisecond tick (times are in ns; MS = 10^6): never early, less than 1 ms late,
+   and exactly arrival + max_wait whenever that is a whole millisecond ... *)
 Theorem C07_deadline_is_arrival_plus_wait :
   forall (c : cfg) (evs : list ev),
     Forall (fun s => forall i d, cs s i = Waiting (Some d) ->
-                       exists a w, arrival s i = Some a /\ max_wait c = Some w /\ d = a + w)
+                       exists a w, arrival s i = Some a /\ max_wait c = Some w /\
+                                   d = ceil_ms (a + w) /\ a + w <= d < a + w + MS /\
+                                   (forall k, a + w = k * MS -> d = a + w))
            (states (step_st c) (init c) evs).
 Proof. exact deadline_is_arrival_plus_wait. Qed.
 Print Assumptions C07_deadline_is_arrival_plus_wait.
@@ -159,12 +163,31 @@ Theorem C07_rejected_at_deadline :
 Proof. exact rejected_at_deadline. Qed.
 Print Assumptions C07_rejected_at_deadline.
 
-(* zero wait (reject_when_full, the presets): a fresh caller that finds no free permit is
-   rejected in that very poll, without reaching the inner service *)
+(* zero wait (reject_when_full, the presets) and, generally, a wait whose timer tick has already
+   been reached: a fresh caller that finds no free permit is rejected in that very poll, without
+   reaching the inner service; for a zero wait that is the case at every whole-millisecond instant *)
 Theorem C07_zero_wait_rejects :
   forall (c : cfg) (s : st) (i : nat) (w : Z),
-    cs s i = Created -> free s = 0%nat -> max_wait c = Some w -> w <= 0 ->
+    cs s i = Created -> free s = 0%nat -> max_wait c = Some w -> ceil_ms (now s + w) <= now s ->
     r (snd (poll c s i)) = 3 /\ started (snd (poll c s i)) = false /\
     now (fst (poll c s i)) = now s.
 Proof. exact zero_wait_rejects. Qed.
 Print Assumptions C07_zero_wait_rejects.
+
+Theorem C07_zero_wait_rejects_on_tick :
+  forall (c : cfg) (s : st) (i : nat) (k : Z),
+    cs s i = Created -> free s = 0%nat -> max_wait c = Some 0 -> now s = k * MS ->
+    r (snd (poll c s i)) = 3 /\ started (snd (poll c s i)) = false /\
+    now (fst (poll c s i)) = now s.
+Proof. exact zero_wait_rejects_on_tick. Qed.
+Print Assumptions C07_zero_wait_rejects_on_tick.
+
+(* off the tick the caller is queued with the next tick as its deadline (tokio's granularity:
+   "exactly max_wait" is exact only up to the millisecond tick; never early) *)
+Theorem C07_zero_wait_off_tick :
+  forall (c : cfg) (s : st) (i : nat) (w : Z),
+    cs s i = Created -> free s = 0%nat -> max_wait c = Some w -> now s < ceil_ms (now s + w) ->
+    r (snd (poll c s i)) = 0 /\ started (snd (poll c s i)) = false /\
+    cs (fst (poll c s i)) i = Waiting (Some (ceil_ms (now s + w))).
+Proof. exact zero_wait_off_tick. Qed.
+Print Assumptions C07_zero_wait_off_tick.
